@@ -552,11 +552,15 @@ func (e2eFamily) Exec(id int, raw json.RawMessage) Case {
 			cl.mu.Lock()
 			cl.down[dead.id] = true
 			cl.mu.Unlock()
-			started := time.Now()
 			node.mm.NotifyGossipLeave(dead.id)
+			queued0 := node.bcast.NumQueued()
 			syncMsg = settle(nil)
-			// the session records of the dead peer are removed by a goroutine 3 s later
-			time.Sleep(time.Until(started.Add(3150 * time.Millisecond)))
+			// the session records of the dead peer are removed by a goroutine 3 s later; its DeletePeer
+			// always queues one broadcast (an empty one when there is nothing to remove): wait for that
+			// broadcast, not for the wall clock, so that the removal is stamped with this step's clock
+			for dl := time.Now().Add(3*time.Second + cl.wait()); node.bcast.NumQueued() <= queued0 && time.Now().Before(dl); {
+				time.Sleep(2 * time.Millisecond)
+			}
 			tags["peer-leave"] = true
 			opT = fmt.Sprintf("EPeerLeave %s %s %s", cqNat(o.N), cqNat(o.Src), cqZ(clk))
 		case "unreachable":
@@ -591,8 +595,9 @@ func (e2eFamily) Exec(id int, raw json.RawMessage) Case {
 				reg = append(reg, s.ID())
 			}
 			sort.Strings(reg)
-			term = fmt.Sprintf("(ECheck %s, [Listed %s %s %s %s])", cqNat(o.N), cqNat(o.N), cqSessL(vis.Sess), cqSubL(vis.Subs), cqStrs(reg))
-			return term, map[string]interface{}{"sessions": vis.Sess, "subs": vis.Subs, "registry": reg}
+			pend := int(atomic.LoadInt64(&node.q.pend))
+			term = fmt.Sprintf("(ECheck %s, [Listed %s %s %s %s %s])", cqNat(o.N), cqNat(o.N), cqSessL(vis.Sess), cqSubL(vis.Subs), cqStrs(reg), cqNat(pend))
+			return term, map[string]interface{}{"sessions": vis.Sess, "subs": vis.Subs, "registry": reg, "inflight": pend}
 		default:
 			panic("unknown op " + o.Op)
 		}
